@@ -111,6 +111,15 @@ func (s *StrategyChoiceModule) set(interest *spec.Interest, pitToken []byte, inF
 		return
 	}
 
+	if len(params.Strategy.Name) > len(s.strategyPrefix)+2 {
+		// Components after the version (strategy parameters) are not supported: no forwarding
+		// thread has a strategy instance of that name, so the choice must not be stored
+		core.LogWarn(s, "Strategy=", params.Strategy.Name, " has components after the version in ControlParameters for Interest=", interest.Name())
+		response = makeControlResponse(404, "Unknown strategy", nil)
+		s.manager.sendResponse(response, interest, pitToken, inFace)
+		return
+	}
+
 	strategyName := params.Strategy.Name[len(s.strategyPrefix)].String()
 	availableVersions, ok := fw.StrategyVersions[strategyName]
 	if !ok {
